@@ -498,11 +498,14 @@ def replay(rep, path):
         whole = json.loads(text)
     except ValueError:
         whole = None
+    if text.lstrip().startswith("["):
+        # a file of generated behaviours (one per line)
+        whole = {"tp": "timer" if '"conts"' in text[:4000] else "pool", "input": None}
     if isinstance(whole, dict) and "input" in whole:
         what = whole.get("tp", "timer")
         beh = os.path.join(wd, "tp_replay_input.ndjson")
         with open(beh, "w") as f:
-            f.write(json.dumps(whole["input"]) + "\n")
+            f.write(text if whole["input"] is None else json.dumps(whole["input"]) + "\n")
         p = whole.get("params", TIMER_PARAMS if what == "timer" else POOL_PARAMS)
         if what == "timer":
             o = vlib.run_harness(bins["replay_timer"], ["--slots", str(p["slots"]), "--tick-ms", str(p["tick_ms"])], stdin_path=beh)
@@ -512,8 +515,10 @@ def replay(rep, path):
         for v in o:
             print(json.dumps(v)[:3000])
             if v.get("kind") == "violation":
-                rep.violation("tp:%s:%s" % (what, v["class"]), v["detail"]["what"][:300], whole, name="tp_%s_replayed.json" % what)
-        rep.cov["traces_validated_against_impl"] = 1
+                obj = {"tp": what, "kind": "behaviour", "class": v["class"], "detail": v["detail"], "input": v.get("input"), "params": p}
+                rep.violation("tp:%s:%s" % (what, v["class"]), v["detail"]["what"][:300], obj,
+                              name="tp_%s_replayed_%d.json" % (what, v["detail"].get("behaviour", 0)))
+        rep.cov["traces_validated_against_impl"] = sum(x.get("replayed", x.get("behaviours", 0)) for x in o if x.get("kind") == "summary")
         return
     if isinstance(whole, dict) or text.lstrip().startswith("the specification") or "Error:" in text[:2000] and '"ev"' not in text[:2000]:
         print(text[-3000:])
